@@ -21,7 +21,7 @@ speclib.install_recorders()
 
 INTS = [0, 1, 15, 16, 30, 31, 60, 61, 2, 14, 17, 29, 32, 59, 62, 100, 1000, -1]
 STRS = ["a", "", "Python", "x/y.py", "b", "// nocl", "#nocl x", "/* NOCL */", "// see nocl", "//  NoCl", "# not", "  ", "\n", "(", ")", "{", "}",
-        "x", "=>", "function", ";nocl", "/*nocl*/", "nocl", "//", "def"]
+        "x", "=>", "function", ";nocl", "/*nocl*/", "nocl", "//", "def", "# was: f(a)  # nocl", "// x //nocl", "/* a /* nocl */", "// x ;nocl"]
 
 
 def split_top(s):
@@ -138,13 +138,40 @@ class Gen:
             return []   # not constructible from the declared schema: never hand out half-built objects
         out = []
         n = 24 if depth < 2 else (4 if depth < 3 else 2)
+        # every second object is built by the real constructor when its parameters correspond to declared fields (so that
+        # state the constructor derives - possibly added by a later change - is there); the others are laid out field by field
+        ctor_map = None
+        try:
+            sig = inspect.signature(cls.__init__)
+            ps = [q for q in list(sig.parameters.values())[1:] if q.kind in (q.POSITIONAL_OR_KEYWORD, q.KEYWORD_ONLY)]
+            m = {}
+            for q in ps:
+                cands = [f for f in names if f == q.name or f.lstrip("_") == q.name]
+                if cands:
+                    m[q.name] = cands[0]
+                elif q.default is inspect.Parameter.empty:
+                    m = None
+                    break
+            if m:
+                ctor_map = m
+        except (TypeError, ValueError):
+            ctor_map = None
         for i in range(n):
-            o = cls.__new__(cls)
+            vals = {}
             for j, f in enumerate(names):
                 p = pools[f]
                 # the first len(INTS) objects walk through every boundary value of every integer field
-                v = p[(i + j * 7) % len(p)] if i < len(INTS) else self.rnd.choice(p)
-                object.__setattr__(o, f, dc(v))
+                vals[f] = dc(p[(i + j * 7) % len(p)] if i < len(INTS) else self.rnd.choice(p))
+            o = None
+            if ctor_map is not None and i % 2 == 0:
+                try:
+                    o = cls(**{q: vals[f] for q, f in ctor_map.items()})
+                except Exception:
+                    o = None
+            if o is None:
+                o = cls.__new__(cls)
+                for f in names:
+                    object.__setattr__(o, f, vals[f])
             out.append(o)
         return out
 
